@@ -36,7 +36,8 @@ func splitByMarkers(log, root string) map[int][]string {
 	}
 	segs := map[int][]string{}
 	cur := 0
-	markRe := regexp.MustCompile(regexp.QuoteMeta(root) + `/__mark_(\d+)"`)
+	// (however the root is spelled in the server's configuration)
+	markRe := regexp.MustCompile(`/__mark_(\d+)"`)
 	for _, ln := range lines {
 		if m := markRe.FindStringSubmatch(ln); m != nil {
 			cur, _ = strconv.Atoi(m[1])
@@ -94,8 +95,7 @@ func rootMutation(cs Case) bool {
 }
 
 // inspect applies the three rules to the system calls of one case.
-func inspect(lines []string, sb *sandbox, cs Case) []violation {
-	var out []violation
+func inspect(lines []string, sb *sandbox, cs Case) (out []violation, judged, unresolved int) {
 	parent := path.Dir(sb.root)
 	for _, ln := range lines {
 		// collect candidate paths: quoted strings resolved against the
@@ -115,10 +115,12 @@ func inspect(lines []string, sb *sandbox, cs Case) []violation {
 					}
 				}
 				if dir == "" {
+					unresolved++
 					continue
 				}
 				p = dir + "/" + s
 			}
+			judged++
 			p = path.Clean(p)
 			mut := mutating(ln)
 			switch {
@@ -146,7 +148,7 @@ func inspect(lines []string, sb *sandbox, cs Case) []violation {
 			}
 		}
 	}
-	return out
+	return out, judged, unresolved
 }
 
 var _ = fwUnused
